@@ -62,6 +62,10 @@ func main() {
 			}
 		}
 	}
+	if d, _ := strconv.Atoi(os.Getenv("VERIF_JOIN_REPLY_DELAY_MS")); d > 0 {
+		// the member's reply to the join hand-shake is processed this much later (newer changes overtake it)
+		raft.VerifJoinReply = func() { time.Sleep(time.Duration(d) * time.Millisecond) }
+	}
 	os.MkdirAll(config.DataDir, os.ModePerm)
 	server := anndb.NewServer(config)
 	if err := server.Run(); err != nil {
